@@ -53,7 +53,7 @@ def gen_config(rng, tier, flavor="db"):
         "gap_rate": rng.choice([0.0, 0.2, 0.5]),
         "counts": rng.choice(["none", "ints", "ints", "big"] if flavor == "db" else ["none", "ints"]),
         "err_style": rng.choice(["norm", "third"]),
-        "inbreeding": rng.choice([0.0, 0.0, 0.05, 0.3, 0.9, 0.99, 1e-6]),
+        "inbreeding": rng.choice([0.0, 0.0, 0.05, 0.3, 0.9, 0.99, 0.001]),
         "temperatures": temps,
         "p_recomb": rng.choice([0.0, 0.5, 1.0]),
         "p_partial": rng.choice([0.0, 0.5, 1.0]),
